@@ -165,11 +165,11 @@ def r01_1(rep, mod):
     # the other memo sites of this module
     sup = find_def(mod, '_implementedBy_super')
     ic = find_def(mod, 'Implements.changed')
-    drops = all(any(nt(e.r) == 'self._super_cache' for e in ps.dels())
+    from .declsem import drops_super_cache
+    drops = all(bool(drops_super_cache(ps))
                 or ps.facts.get('EXCEPT(AttributeError)') is True
                 for ps in normal(summaries(ic))) and any(
-        any(nt(e.r) == 'self._super_cache' for e in ps.dels())
-        for ps in normal(summaries(ic)))
+        bool(drops_super_cache(ps)) for ps in normal(summaries(ic)))
     rep.check('R01.1', 'declarations._implementedBy_super',
               drops and not filters_on_time_dependent_predicate(sup),
               '_super_cache holds specs built from live, unfiltered bases and is '
